@@ -64,6 +64,8 @@ type Scenario struct {
 	MaxDecideView   int           `json:"max_decide_view,omitempty"` // C09: with S silent from the start every height is decided in a view <= |S| (-1: not checked)
 	Oracle          string        `json:"oracle,omitempty"`     // extra world-level oracle: C08 | C09 | C16
 	ByzScript       []ByzStep     `json:"byz_script,omitempty"` // sends of the Byzantine member that are part of the base (cost 0)
+	FairTimers      bool          `json:"fair_timers,omitempty"` // safety mode: the default schedule fires quiescent timers round-robin (instead of shortest duration first)
+	LossyLinks      [][2]int      `json:"lossy_links,omitempty"` // directed links (from, to) that lose every message for the whole run (part of the base)
 
 	// derived helpers (not serialised)
 	e2cache *e2env
@@ -220,6 +222,7 @@ type World struct {
 	cutDone   bool
 	cutLeft   int
 	restarted bool
+	lastTimeout int // id of the node whose timer fired last (FairTimers)
 	byz       *byzState
 
 	// observation log (only when logging is on: samples, C14)
@@ -430,6 +433,9 @@ func (w *World) send(from *Node, p *Payload) {
 		}
 		if w.cutActive && (slices.Contains(w.sc.CutSet, n.id) != slices.Contains(w.sc.CutSet, from.id) || slices.Contains(w.sc.CutSet, n.id)) {
 			continue // lost: a cut-off node neither sends nor receives
+		}
+		if len(w.sc.LossyLinks) > 0 && slices.Contains(w.sc.LossyLinks, [2]int{from.id, n.id}) {
+			continue // lost: this directed link drops everything
 		}
 		w.seq++
 		w.net = append(w.net, flight{dst: n.id, p: p, seq: w.seq})
@@ -689,7 +695,14 @@ func (w *World) enabled() []Event {
 					cs = append(cs, cand{n, n.t.d})
 				}
 			}
-			sort.SliceStable(cs, func(i, j int) bool { return cs[i].d < cs[j].d })
+			if sc.FairTimers {
+				nn := len(w.nodes)
+				sort.SliceStable(cs, func(i, j int) bool {
+					return (cs[i].n.id-w.lastTimeout-1+2*nn)%nn < (cs[j].n.id-w.lastTimeout-1+2*nn)%nn
+				})
+			} else {
+				sort.SliceStable(cs, func(i, j int) bool { return cs[i].d < cs[j].d })
+			}
 			for _, c := range cs {
 				if quiescent && !have {
 					def(Event{K: "timeout", N: c.n.id})
@@ -886,6 +899,7 @@ func (w *World) apply(e Event) {
 			}
 		}
 		w.expiries++
+		w.lastTimeout = n.id
 		w.stats.Antecedents["timeout"]++
 		n.Timeout(n.t.h, n.t.v)
 		w.afterExpiry()
@@ -1144,6 +1158,9 @@ func (w *World) key() [2]uint64 {
 	}
 	if w.restarted {
 		put(5)
+	}
+	if w.sc.FairTimers {
+		put(uint64(100 + w.lastTimeout))
 	}
 	if w.sc.E2 != nil {
 		put(uint64(w.skips))
